@@ -17,10 +17,14 @@
 //!        2 = "mt": the F5 race (DESIGN section 6) on a multi-thread runtime, `nops` iterations,
 //!            wall-clock timeout; oracle only;
 //!        3 = "cbar": as kind 0 (a barrier after every command) but with CANCELLATIONS (op 6) of
-//!            pending requests; the model has no cancellation, so oracle only.
+//!            pending requests (reads and writes); oracle only;
+//!        4 = "wbar": as kind 0 with cancellations of pending WRITE requests only (op 6 on a client
+//!            whose read is pending is skipped); compared with the model by trace acceptance like
+//!            kind 0: the model side represents a cancelled write request by a ghost client that
+//!            drops its guard at once (Run/RunRwLock.v, `accept_g`).
 //!   ops  0 acquire read | 1 acquire write | 2 release read guard | 3 commit arg | 4 drop write guard |
 //!        6 cancel the client's pending read()/write() (its future is dropped where it stands;
-//!          kinds 1 and 3 only)
+//!          kinds 1, 3 and 4 only)
 //!        (a command that does not fit the client's status is skipped, as in the model)
 //! Observation per client: 0 idle | 1 read guard (value) | 2 write guard (value) | 3 read pending |
 //!   4 write pending | 5 commit pending | 6 error.
@@ -268,7 +272,10 @@ struct Trace {
     setup_ok: bool,
 }
 
-fn valid(op: u128, st: St) -> bool {
+fn valid(kind: u128, op: u128, st: St) -> bool {
+    if kind == 4 && op == 6 {
+        return st == St::PendW;
+    }
     matches!(
         (op, st),
         (0, St::Idle) | (1, St::Idle) | (2, St::HoldR(_)) | (3, St::HoldW(_)) | (4, St::HoldW(_)) | (6, St::PendR) | (6, St::PendW)
@@ -353,7 +360,7 @@ async fn run_case(c: &Case) -> Trace {
             }
             continue;
         }
-        if valid(op, sh.get(cl)) {
+        if valid(c.kind, op, sh.get(cl)) {
             // mark the status at once: the actor has not run yet
             match op {
                 0 => sh.set(cl, St::PendR),
@@ -363,7 +370,7 @@ async fn run_case(c: &Case) -> Trace {
             }
             send(op, cl, arg);
         }
-        if c.kind == 0 || c.kind == 3 {
+        if c.kind == 0 || c.kind == 3 || c.kind == 4 {
             barrier().await;
             obs.push(sh.st.lock().unwrap().clone());
         }
@@ -540,6 +547,7 @@ fn signature(c: &Case, t: &Trace, f5: bool) -> String {
         0 => "bar",
         1 => "race",
         3 => "cbar",
+        4 => "wbar",
         _ => "mt",
     });
     let nk = c.cache_of.iter().max().unwrap() + 1;
@@ -704,7 +712,7 @@ pub fn exec(inp: &[u128]) -> (Vec<u128>, Vec<u128>, String, String) {
     };
     let (verdict, f5) = oracle(&c, &t);
     let mut obs = Vec::new();
-    if c.kind == 0 {
+    if c.kind == 0 || c.kind == 4 {
         for o in &t.obs {
             for s in o {
                 st_nums(*s, &mut obs);
@@ -759,7 +767,9 @@ pub fn gen(r: &mut Rng, i: usize) -> Vec<Vec<u128>> {
     let race = i % 4 == 3;
     // cancellation cases: every 8th case barriered ("cbar"), and half of the race cases
     let cbar = i % 8 == 5;
-    let cancels = cbar || (race && r.chance(1, 2));
+    // ... and every 8th barriered with cancellations of write requests only, accepted against the model
+    let wbar = i % 8 == 1;
+    let cancels = cbar || wbar || (race && r.chance(1, 2));
     let ncli = r.range(2, 4) as usize;
     let nk = match r.below(4) {
         0 => 1,
@@ -816,7 +826,7 @@ pub fn gen(r: &mut Rng, i: usize) -> Vec<Vec<u128>> {
         let mut pos = fifo.iter().position(|e| e.0 == c);
         if let Some(p) = pos {
             if !fifo[p].2 {
-                if r.chance(2, 3) {
+                if (fifo[p].1 || !wbar) && r.chance(2, 3) {
                     ops.push((6, c as u64, 0));
                     fifo.remove(p);
                     regrant(&mut fifo);
@@ -904,7 +914,13 @@ pub fn gen(r: &mut Rng, i: usize) -> Vec<Vec<u128>> {
         }
     }
     let seed = if race && r.chance(2, 3) { r.next() | 1 } else { 0 };
-    let kind: u128 = if cbar { 3 } else { race as u128 };
+    let kind: u128 = if cbar {
+        3
+    } else if wbar {
+        4
+    } else {
+        race as u128
+    };
     let mut v: Vec<u128> = vec![kind, v0 as u128, seed as u128, ncli as u128];
     v.extend(cache_of.iter().map(|x| *x as u128));
     v.push(ops.len() as u128);
